@@ -47,6 +47,13 @@ def gen_cases(tier, seed):
         cases.append({"kind": "step", "deg": deg, "nth": nth, "nz": nz, "nr": rng.randint(2, 4), "nv": rng.randint(2, 5), "iota": iota,
                       "R0": rng.uniform(1, 10), "disp": rng.choice(["sub", "multi", "period", "node", "tiny"]), "sign": rng.choice([1, -1]),
                       "seed": rng.randrange(1 << 30), "cost": nth * nth * nz})
+    # straight field lines with the foot ON a grid point (the exact-circular-shift clause): small, so many of them -- whether the
+    # operator recognises the node depends on how displacement/dz rounds, which differs from case to case
+    rngn = random.Random(rng.randrange(1 << 30) ^ 0xA11)
+    for k in range(40 if tier == "quick" else 2000):
+        nth, nz = rngn.randint(4, 9), rngn.randint(7, 12)
+        cases.append({"kind": "step", "deg": rngn.choice([3, 3, 2, 5]) if nth > 5 else 3, "nth": nth, "nz": nz, "nr": 2, "nv": rngn.randint(3, 7), "iota": "zero",
+                      "R0": rngn.uniform(1, 10), "disp": "node", "sign": rngn.choice([1, -1]), "seed": rngn.randrange(1 << 30), "cost": nth * nth * nz})
     grids = [(1, 1), (2, 1), (1, 2), (2, 2), (3, 1), (1, 3), (2, 3), (3, 2)]
     for rep in range(1 if tier == "quick" else 10):
         for (p0, p1) in grids:
@@ -95,7 +102,21 @@ def run_case(case):
     R0 = case["R0"]
     zMax = rng.choice([2 * pi * R0, rng.uniform(5, 50)])
     vMax = rng.uniform(1, 6)
-    c = pg.make_constants(rMin=rng.uniform(0.1, 1.0), rMax=rng.uniform(3, 8), zMin=0.0, zMax=zMax, vMax=vMax, vMin=-vMax, R0=R0,
+    # away from the default geometry (own generator, so the other draws stay as they were): a z domain that does not start at 0,
+    # a velocity domain that is not symmetric -- only dz, the displacement and the sign of v may matter
+    rng2 = random.Random(case["seed"] ^ 0x5EED8)
+    zMin = rng2.choice([0.0, 0.0, -0.5 * zMax, rng2.uniform(-25, 25)])
+    zMax = zMin + zMax
+    vMin = -vMax * rng2.choice([1.0, 1.0, 0.4, 1.8])
+    lattice = case["disp"] not in ("sub", "tiny", "multi", "period") and rng2.random() < 0.6
+    if lattice:
+        # whole-cell displacements for EVERY velocity of the grid (symmetric v grid, dt a multiple of dz/dv), half of them with a cell
+        # width that is not a binary fraction: the quotient displacement/dz is then a whole number only up to rounding, which is the
+        # situation the "foot is a grid point" branch of the operator has to recognise from the coordinates themselves
+        vMin = -vMax
+        if rng2.random() < 0.5:
+            zMin, zMax = 0.0, nz * rng2.choice([0.1, 0.3, 0.7, 0.9])
+    c = pg.make_constants(rMin=rng.uniform(0.1, 1.0), rMax=rng.uniform(3, 8), zMin=zMin, zMax=zMax, vMax=vMax, vMin=vMin, R0=R0,
                           npts=[nr, nth, nz, nv], splineDegrees=[min(3, nr - 1), deg, 3, min(3, nv - 1)], iota_fn=_iota_fn(case["iota"]))
     eta, bs, _ = pg.make_space(spl, c.npts, c.splineDegrees, pg.std_domain(c))
     dz = eta[2][1] - eta[2][0]
@@ -113,10 +134,12 @@ def run_case(case):
     else:
         cells = float(rng.randint(1, nz + 3))
     dt = case["sign"] * cells * dz / vref
+    if lattice and nv > 1:
+        dt = case["sign"] * rng2.choice([1, 2, 3, 7]) * dz / float(eta[3][1] - eta[3][0]) * (0.5 if nv % 2 == 0 else 1.0) * rng2.choice([1, 1, 2])
     layout = Layout('flux_surface', [1, 1], [0, 3, 1, 2], eta, [0, 0])
     op = adv.FluxSurfaceAdvection(eta, [bs[1], bs[2]], layout, dt, c)
     # a second live operator on a LARGER grid, built and used after `op` was built: must not influence `op`
-    c2 = pg.make_constants(rMin=c.rMin, rMax=c.rMax, zMin=0.0, zMax=zMax, vMax=vMax, vMin=-vMax, R0=R0, npts=[nr, nth + 3, nz + 5, nv],
+    c2 = pg.make_constants(rMin=c.rMin, rMax=c.rMax, zMin=zMin, zMax=zMax, vMax=vMax, vMin=vMin, R0=R0, npts=[nr, nth + 3, nz + 5, nv],
                            splineDegrees=[min(3, nr - 1), deg, 3, min(3, nv - 1)], iota_fn=_iota_fn(case["iota"]))
     eta2, bs2, _b2 = pg.make_space(spl, c2.npts, c2.splineDegrees, pg.std_domain(c2))
     decoy = adv.FluxSurfaceAdvection(eta2, [bs2[1], bs2[2]], Layout('flux_surface', [1, 1], [0, 3, 1, 2], eta2, [0, 0]), -0.7 * dt, c2)
@@ -126,11 +149,12 @@ def run_case(case):
         return result(SKIP, what="theta collocation ill conditioned")
     path = "fast" if bs[1].cubic_uniform else "general-p%d" % deg
     base = "%s/iota-%s/%s" % (path, case["iota"], "fwd" if dt > 0 else "bwd")
-    cls, ev = set(), {"nodes_compared": 0, "identity_checks": 0, "multi_period_cases": 0, "on_node_cases": 0}
+    cls, ev = set(), {"nodes_compared": 0, "identity_checks": 0, "multi_period_cases": 0, "on_node_cases": 0,
+                      "z_origin_nonzero_cases": int(zMin != 0.0), "asymmetric_v_domain_cases": int(vMin != -vMax)}
     rvals, vvals = eta[0], eta[3]
     iota_all = c.iota(rvals)
     dth = eta[1][1] - eta[1][0]
-    wit0 = {"case": case, "dt": dt, "R0": R0, "zMax": zMax, "vMax": vMax, "rMin": c.rMin, "rMax": c.rMax}
+    wit0 = {"case": case, "dt": dt, "R0": R0, "zMin": zMin, "zMax": zMax, "vMin": vMin, "vMax": vMax, "rMin": c.rMin, "rMax": c.rMax}
     for ri in range(nr):
         for vi in range(nv):
             F = rs.standard_normal((nth, nz))
@@ -235,7 +259,7 @@ def _grid_case(case, spl, adv):
             e = float(np.abs(G[i, :, :, j] - ref).max())
             ev["grid_surfaces_compared"] += 1
             ev["nodes_compared"] += nth * nz
-            if e > tol and e - tol > worst[0] - worst[1]:
+            if not e <= tol and not e - tol <= worst[0] - worst[1]:
                 worst = (e, tol, (i, j))
     if worst[2] is not None:
         key = KEY_RIDX if iota != 0 else "C10:grid-formula"
